@@ -97,14 +97,32 @@ func (k *Key) CoqFull() string {
 
 // Pool is the set of named keys of a run.
 type Pool struct {
-	Keys   []*Key
-	byID   map[string]*Key
-	first  map[string][]*Key
-	ByKind map[string][]*Key
+	Keys     []*Key
+	byID     map[string]*Key
+	first    map[string][]*Key
+	ByKind   map[string][]*Key
+	blobs    map[string]string // named byte strings (whole-string matches are printed by name)
+	BlobDefs []string          // their Coq definitions, in order
 }
 
 func NewPool() *Pool {
-	return &Pool{byID: map[string]*Key{}, first: map[string][]*Key{}, ByKind: map[string][]*Key{}}
+	return &Pool{byID: map[string]*Key{}, first: map[string][]*Key{}, ByKind: map[string][]*Key{}, blobs: map[string]string{}}
+}
+
+// Blob names a byte string that many cases share (scripts, signatures, hashes of the
+// transactions the mutants are derived from); it must be called before the first case is
+// written, because the definitions go into the header of the case file.
+func (p *Pool) Blob(b []byte) {
+	if len(b) < 8 {
+		return
+	}
+	if _, ok := p.blobs[string(b)]; ok {
+		return
+	}
+	def := p.CB(b)
+	name := fmt.Sprintf("bl%d", len(p.blobs))
+	p.blobs[string(b)] = name
+	p.BlobDefs = append(p.BlobDefs, fmt.Sprintf("Definition %s : bytes := %s.", name, def))
 }
 
 func (p *Pool) Add(k *Key) *Key {
@@ -143,6 +161,9 @@ func (p *Pool) CoqKeys(ks []*Key) string {
 // CB prints a byte string as a Coq term of type bytes, writing every occurrence of a pool key's
 // serialization as `pk_ser pkN` and every run of 12 or more equal bytes as `repeat`.
 func (p *Pool) CB(b []byte) string {
+	if name, ok := p.blobs[string(b)]; ok {
+		return name
+	}
 	if len(b) < 12 {
 		return hx.CoqBytes(b)
 	}
